@@ -100,18 +100,25 @@ def expr_loads(e):
     return False
 
 
+VAR_KINDS = ("auto", "reserved", "indexed")
+
+
 def case(job):
-    main, version, opt = job
+    main, version, opt = job[:3]
+    kind = job[3] if len(job) > 3 else "auto"
     from vf.core import use_repo
     use_repo()
     import pyteal as pt
     from spec import progsem
-    prog = progsem.Prog(("seq", [main, ("return", ("int", 1))]), {}, [("x", "u", None)], "Application")
+    prog = progsem.Prog(("seq", [main, ("return", ("int", 1))]), {}, [("x", "u", 7 if kind == "reserved" else None)], "Application")
     _, bad, _, _ = analyse(prog.main, {False})
-    out = {"main": main, "version": version, "expect_reject": bad, "problem": None}
+    out = {"main": main, "version": version, "kind": kind, "expect_reject": bad, "problem": None}
     try:
         b = progsem.Builder(prog)
         e = b.build()
+        if kind == "indexed":
+            # the variable's index is also taken (as DynamicScratchVar / by-reference passing do), on a path that stores nothing
+            e = pt.Seq(pt.If(pt.Txn.fee() == pt.Int(12345)).Then(pt.Pop(b.gvars["x"].index())), e)
         kw = {"optimize": pt.OptimizeOptions(scratch_slots=opt)} if opt is not None else {}
         pt.compileTeal(e, pt.Mode.Application, version=version, **kw)
         if bad:
@@ -150,13 +157,16 @@ def run(report: Report, tier, seed):
         jobs.append((s, v, None))
         if v >= 9 or i % 5 == 0:
             jobs.append((s, 10, False))
+        # the same shapes on an explicitly numbered variable and on one whose index is also taken
+        if i % 2 == 0 or tier != "quick":
+            jobs.append((s, v, None, VAR_KINDS[1 + i % 2]))
     with ProcessPoolExecutor(max_workers=16) as ex:
         res = list(ex.map(case, jobs, chunksize=32))
     bad = [r for r in res if r["problem"]]
     nrej = sum(1 for r in res if r["expect_reject"])
     report.bounded.append(Bounded(function="compileTeal (validateSlots via assignScratchSlotsToSubroutines)",
                                   contract="rejected with TealInternalError caused by a TealCompileError naming the load  <=>  some syntactic path reaches a load of the local variable before any store",
-                                  bound=f"statement shapes of nesting depth <= 2 over store / load / If / If-Else / Seq / While / Cond / Break / Continue / Return ({len(S)} shapes{' (every 3rd + first 40)' if tier == 'quick' else ', exhaustive'}), versions 4..10, optimiser default/off",
+                                  bound=f"variable kinds auto / explicitly numbered / index-taken; statement shapes of nesting depth <= 2 over store / load / If / If-Else / Seq / While / Cond / Break / Continue / Return ({len(S)} shapes{' (every 3rd + first 40)' if tier == 'quick' else ', exhaustive'}), versions 4..10, optimiser default/off",
                                   cases=len(res), distinct_nontrivial=len({repr(j[0]) for j in jobs}), failures=len(bad)))
     report.sample({"shape": repr(S[11])[:200], "expected_rejected": analyse(("seq", [S[11]]), {False})[1]})
     report.extra["explanation"] = f"P: validateSlots closure contract (pyvc); B: exhaustive small scope ({nrej} shapes must be rejected, {len(res) - nrej} accepted)"
@@ -169,7 +179,7 @@ def run(report: Report, tier, seed):
     if any(o.status == "refuted" for o in report.obs):
         bad = [b for b in bad if not ("succeeded" in b["problem"] or "identify" in b["problem"])]
     for b in bad[:3]:
-        report.violation(Violation(key=f"rbw:{repr(b['main'])[:100]}", what=f"{b['problem']} on {repr(b['main'])[:200]}", replay={"main": repr(b["main"]), "version": b["version"]},
+        report.violation(Violation(key=f"rbw:{repr(b['main'])[:100]}", what=f"{b['problem']} on {repr(b['main'])[:200]} (variable kind: {b.get('kind')})", replay={"main": repr(b["main"]), "version": b["version"], "kind": b.get("kind")},
                                    confirmed_native=True))
 
 
